@@ -1,7 +1,10 @@
 (* Line driver around the extracted ELF/PE model (C19).  Parsing/printing only.
    Request:  <op> <fx:0|1> <mode:debug|release> <exe> <name-hex> <payload>
    with the same <exe>/<payload> syntax as harness/subs/exe.rs; answers in the same format
-   (`OK <len> <hex>`, `ERR notfound|other`, `PANIC <site>`). *)
+   (`OK <len> <hex>`, `ERR notfound|other`, `PANIC <site>`).
+   Request:  deploy <windows:0|1> <native:0|1> <root:0|1> <self_mode> <boss umask> <remote umask> <existing mode | ->
+   (decimal numbers) answers the mode trace of Model/DeployFile.v deploy_trace:
+   `STEPS staged=<m> scp=<m> [chmod=<m>] launch=<0|1>`  (m = `-` when there is no remote file). *)
 open Exe
 
 let unhex h = if h = "-" then [] else begin
@@ -15,6 +18,22 @@ let hex l = if l = [] then "-" else begin
   List.iter (fun c -> Buffer.add_string b (Printf.sprintf "%02x" (Char.code c))) l;
   Buffer.contents b end
 let implode l = let b = Buffer.create 16 in List.iter (Buffer.add_char b) l; Buffer.contents b
+
+let rec pos_of_int i = if i = 1 then XH else if i land 1 = 1 then XI (pos_of_int (i lsr 1)) else XO (pos_of_int (i lsr 1))
+let n_of_int i = if i = 0 then N0 else Npos (pos_of_int i)
+let rec int_of_pos = function XH -> 1 | XO p -> 2 * int_of_pos p | XI p -> 2 * int_of_pos p + 1
+let int_of_n = function N0 -> 0 | Npos p -> int_of_pos p
+let mode_str = function None -> "-" | Some m -> string_of_int (int_of_n m)
+
+let deploy_line w nat root self bu ru ex =
+  let ex = if ex = "-" then None else Some (n_of_int (int_of_string ex)) in
+  let (staged, tr) = deploy_trace (w = "1") (nat = "1") (root = "1") (n_of_int (int_of_string self))
+                       (n_of_int (int_of_string bu)) (n_of_int (int_of_string ru)) ex in
+  let item (s, wd) = match s with
+    | SScp -> "scp=" ^ mode_str wd.w_remote
+    | SChmod -> "chmod=" ^ mode_str wd.w_remote
+    | SLaunch -> "launch=" ^ (match wd.w_started with Some true -> "1" | Some false -> "0" | None -> "?") in
+  Printf.sprintf "STEPS staged=%d %s" (int_of_n staged) (String.concat " " (List.map item tr))
 
 let gen_payload len seed =
   let r = ref [] in
@@ -45,6 +64,7 @@ let () =
     let line = input_line stdin in
     let toks = List.filter (fun s -> s <> "") (String.split_on_char ' ' line) in
     (match toks with
+     | ["deploy"; w; nat; root; self; bu; ru; ex] -> print_endline (deploy_line w nat root self bu ru ex)
      | op :: fx :: md :: exe :: name :: payload :: _ ->
         let fx = (fx = "1") in
         let md = if md = "release" then Release else Debug in
